@@ -299,6 +299,11 @@ func c04(p *Prog, r *Report) {
 		}
 	}
 	c04Cache(p, r, R2)
+	// the type-5 and batch structures are framed by QUIC varints: their round
+	// trip needs the varint codec to be an exact inverse pair
+	const R5 = "C04.varint-length-prefixes-exact"
+	r.Rule(R5, "type 5 and batch messages carry QUIC-varint length prefixes: encoder and decoder are exact inverses with the shortest form (the rules of C19, one obligation per rule)", 5)
+	c19AsSubRule(p, r, R5)
 	c04BatchRequest(p, r, R4)
 	c04BatchResponses(p, r, R4, ne1, nk1, nk2)
 }
